@@ -81,7 +81,13 @@ func (e *EngineApplier) applyInReadOnlyMode(entry *wal.Entry) error {
 		return e.engine.Delete(entry.Key)
 
 	case wal.OpTypeMerge:
-		// Handle merge as a put operation for compatibility
+		// Handle merge as a put operation for compatibility. Like a put it goes
+		// through the internal path: switching the engine-wide read-only flag off
+		// and on again lets concurrent client writes through in between
+		if putter, ok := e.engine.(interface{ PutInternal(key, value []byte) error }); ok {
+			return putter.PutInternal(entry.Key, entry.Value)
+		}
+
 		if setter, ok := e.engine.(interface{ SetReadOnly(bool) }); ok {
 			setter.SetReadOnly(false)
 			err := e.engine.Put(entry.Key, entry.Value)
